@@ -514,8 +514,8 @@ def ref_commit(f: dict) -> bytes:
     if f["encoding"]:
         out.append(b"encoding " + f["encoding"] + b"\n")
     for m in f["mergetag"]:
-        assert m.endswith(b"\n")
-        out.append(b"mergetag " + ref_fold(m[:-1]) + b"\n")
+        # git (strbuf_add_lines) completes an unterminated last line instead of dropping a byte
+        out.append(b"mergetag " + ref_fold(m[:-1] if m.endswith(b"\n") else m) + b"\n")
     for k, v in f["extra"]:
         out.append(k + b" " + ref_fold(v) + b"\n")
     if f["gpgsig"]:
@@ -711,7 +711,7 @@ def gen_commit_fields(rng, level="canon", algo="sha1") -> dict:
             if tf["tagger"] is None:
                 tf["tagger"], tf["tag_time"], tf["tag_timezone"], tf["tag_neg"] = b"T <t@t>", 1, 0, False
             raw = ref_tag(tf)
-            if not raw.endswith(b"\n"):
+            if not raw.endswith(b"\n") and (git or rng.random() < 0.5):
                 raw += b"\n"
             f["mergetag"].append(raw)
     if rng.random() < 0.3:
@@ -1212,57 +1212,46 @@ def _stream_objects(ctx, kind: str):
     rng = ctx.rng
     gen = gen_commit_fields if kind == "commit" else gen_tag_fields
     tokens = commit_tokens if kind == "commit" else tag_tokens
-    build = build_commit if kind == "commit" else build_tag
     ref = ref_commit if kind == "commit" else ref_tag
-    fields_of = commit_fields_of if kind == "commit" else tag_fields_of
-    from dulwich.objects import Commit, Tag
-    from dulwich.object_format import SHA256
-    cls = Commit if kind == "commit" else Tag
-    n = ctx.budget(400)
+    n = ctx.budget(400) * BOOST
     cases = [gen(rng, "canon", "sha256" if rng.random() < 0.2 else "sha1") for _ in range(n)]
     outs = ctx.driver.batch([f"c01.{kind}.ser {tokens(f)}" for f in cases])
     raws = []
     for f, m in zip(cases, outs):
-        case = {"kind": kind, "fields": {k: repr(v) for k, v in f.items()}}
-        obj = build(f)
-        real = try_raw(obj)
-        shape = []
         if kind == "commit":
             shape = [f"p{min(len(f['parents']), 3)}"] + [k for k in ("encoding", "gpgsig") if f[k]] + \
                     (["mergetag"] if f["mergetag"] else []) + (["extra"] if f["extra"] else [])
         else:
             shape = [f["object_type"].decode()] + (["sig"] if f["signature"] else []) + ([] if f["tagger"] else ["notagger"])
         ctx.count(f"{kind}.ser", tokens(f), True, "+".join(shape))
-        _cmp(ctx, f"{kind}.ser", case, m, real)
-        if not real.startswith("ok "):
-            ctx.oracle_fail(f"{kind}.ser", case, f"canonical field values do not serialise: {real}", None)
-            continue
-        raw = unhx(real[3:])
-        raws.append(raw)
-        # ---- oracle 1: bytes are git's grammar for these values
-        want = ref(f)
-        if raw != want:
-            ctx.oracle_fail(f"{kind}.bytes", case, f"as_raw_string differs from git's encoding: {raw!r} vs {want!r}", None)
-        # ---- oracle 2: id = hash(type, length, content), both algorithms
-        if obj.id != sha_hex("sha1", kind, raw) or obj.get_id(SHA256) != sha_hex("sha256", kind, raw):
-            ctx.oracle_fail(f"{kind}.id", case, "id is not the hash of header+as_raw_string", None)
-        # ---- oracle 3: parsing the bytes returns the same values
-        back = fields_of(cls.from_string(raw))
-        if _norm_msg(back) != _norm_msg(f):
-            diff = [k for k in f if _norm_msg(back)[k] != _norm_msg(f)[k]]
-            ctx.oracle_fail(f"{kind}.roundtrip", case, f"from_string(as_raw_string) changes {diff}", None)
+        real, raw = _fields_oracle(ctx, kind, f)
+        _cmp(ctx, f"{kind}.ser", {"kind": kind, "fields": {k: repr(v) for k, v in f.items()}}, m, real)
+        if raw is not None:
+            raws.append(raw)
     if raws:
         ctx.sample({"stream": f"{kind}.ser", "raw": raws[0][:160].decode("latin1")})
     # ---- canonical bytes written by the reference serialiser: parse, compare with model; touch one field
     canon = []
-    for _ in range(ctx.budget(300)):
+    for _ in range(ctx.budget(300) * BOOST):
         f = gen(rng, "canon", "sha256" if rng.random() < 0.2 else "sha1")
-        canon.append((f, ref(f)))
+        if kind == "commit":
+            f["mergetag"] = [m if m.endswith(b"\n") else m + b"\n" for m in f["mergetag"]]
+        raw = ref(f)
+        if rng.random() < 0.08 and not f["message"] and not f.get("signature"):
+            pass
+        if rng.random() < 0.08:
+            # "missing message": git accepts an object that ends after its last header line (no blank line)
+            f = dict(f)
+            f["message"] = None
+            if kind == "tag":
+                f["signature"] = None
+            raw = ref(f)[:-1]
+        canon.append((f, raw))
     outs = ctx.driver.batch([f"c01.{kind}.deser {hx(r)}" for _, r in canon])
     for (f, raw), m in zip(canon, outs):
-        case = {"kind": kind, "raw": hx(raw)}
+        case = {"kind": kind, "raw": hx(raw), "replay": {"op": "touch", "kind": kind, "raw": hx(raw)}}
         real, obj, back = _real_deser(kind, raw)
-        ctx.count(f"{kind}.deser", raw, True, "canon")
+        ctx.count(f"{kind}.deser", raw, True, "canon" if f["message"] is not None else "canon-nomessage")
         _cmp(ctx, f"{kind}.deser", case, m, real)
         if obj is None:
             ctx.oracle_fail(f"{kind}.parse", case, f"a canonical {kind} is rejected: {real}", None)
@@ -1274,7 +1263,7 @@ def _stream_objects(ctx, kind: str):
         _touch_oracle(ctx, kind, raw, rng)
     # ---- mutated bytes: model vs real only (no property claim on malformed input here)
     base = [r for _, r in canon] + raws
-    muts = [mutate(rng, rng.choice(base)) for _ in range(ctx.budget(500))] if base else []
+    muts = [mutate(rng, rng.choice(base)) for _ in range(ctx.budget(500) * BOOST)] if base else []
     muts += _handwritten(kind)
     outs = ctx.driver.batch([f"c01.{kind}.deser {hx(r)}" for r in muts])
     outs2 = ctx.driver.batch([f"c01.{kind}.reser {hx(r)}" for r in muts])
@@ -1283,10 +1272,11 @@ def _stream_objects(ctx, kind: str):
         ctx.count(f"{kind}.deser", r, True, "mut:" + real[:3])
         _cmp(ctx, f"{kind}.deser", {"kind": kind, "raw": hx(r)}, m, real)
         if obj is not None:
-            # force a re-serialisation from the parsed attribute values (what any setter triggers)
+            # force a re-serialisation from the parsed attribute values (what any setter triggers); error kinds are
+            # compared coarsely (an attribute missing from the bytes is an unset slot in Python, `none` in the model)
             obj._needs_serialization = True
             rr = try_raw(obj)
-            _cmp(ctx, f"{kind}.reser", {"kind": kind, "raw": hx(r)}, m2, rr)
+            _cmp(ctx, f"{kind}.reser", {"kind": kind, "raw": hx(r)}, _coarse(m2), _coarse(rr))
 
 
 def _handwritten(kind):
@@ -1311,42 +1301,811 @@ def _handwritten(kind):
             o + b"type commit\ntag v\n\nm-----BEGIN PGP SIGNATURE-----", o + b"type commit\ntag\n\nm", o + b"type commit\ntag \n\nm"]
 
 
-def _touch_oracle(ctx, kind, raw: bytes, rng):
+def _touch_oracle(ctx, kind, raw: bytes, rng, stream=None, attrs=None):
     """"re-serialising a parsed well-formed object, unchanged or with one field changed, reproduces every
     other byte exactly": parse canonical bytes; (a) unchanged; (b) assign one attribute its own value
     (forces a re-serialisation, must reproduce every byte); (c) change one attribute: the result must be
-    git's encoding of the changed values."""
+    git's encoding of the changed values (for an object without blank line: the old bytes with only that
+    header line changed)."""
     from dulwich.objects import Commit, Tag
     cls = Commit if kind == "commit" else Tag
     ref = ref_commit if kind == "commit" else ref_tag
     fields_of = commit_fields_of if kind == "commit" else tag_fields_of
-    case = {"kind": kind, "raw": hx(raw)}
+    noblank = b"\n\n" not in raw and not raw.startswith(b"\n")
+    klass = "missing-message-no-blank-line" if noblank else None
     o = cls.from_string(raw)
+    case0 = {"kind": kind, "raw": hx(raw)}
     if o.as_raw_string() != raw or o.id != sha_hex("sha1", kind, raw):
-        ctx.oracle_fail(f"{kind}.unchanged", case, "parsed object does not give back its bytes / id", None)
-    attr = rng.choice(TOUCH[kind])
+        ctx.oracle_fail(stream or f"{kind}.unchanged", {**case0, "replay": {"op": "touch", "kind": kind, "raw": hx(raw)}},
+                        "parsed object does not give back its bytes / id", None)
+    attr = (attrs or [None])[0] or rng.choice(TOUCH[kind])
+    case = {**case0, "attr": attr, "replay": {"op": "touch", "kind": kind, "raw": hx(raw), "attrs": [attr, None]}}
     o = cls.from_string(raw)
     setattr(o, attr, getattr(o, attr))
     got = try_raw(o)
-    ctx.count(f"{kind}.touch", (raw, attr), True, attr)
+    ctx.count(f"{kind}.touch", (raw, attr), True, attr + (":nomessage" if noblank else ""))
     if got != "ok " + hx(raw):
-        ctx.oracle_fail(f"{kind}.touch", {**case, "attr": attr},
-                        f"assigning {attr} its own value and re-serialising changes bytes: {got[:200]}", None)
+        ctx.oracle_fail(stream or f"{kind}.touch", case,
+                        f"assigning {attr} its own value and re-serialising changes bytes: ...{unhx(got[3:])[-60:]!r} vs ...{raw[-60:]!r}"
+                        if got.startswith("ok ") else f"assigning {attr} its own value: {got}", klass)
     # (c) a real change
     o = cls.from_string(raw)
     f = fields_of(o)
-    attr = rng.choice(["message", "author" if kind == "commit" else "name", "commit_time" if kind == "commit" else "tag_time"])
+    attr = (attrs or [None, None])[1] or rng.choice(["message" if not noblank else ("author" if kind == "commit" else "name"),
+                                                     "author" if kind == "commit" else "name",
+                                                     "commit_time" if kind == "commit" else "tag_time"])
     newv = {"message": b"changed\n", "author": b"New <n@n>", "name": b"newname", "commit_time": 42, "tag_time": 42}[attr]
     if attr == "tag_time" and f["tagger"] is None:
         return
+    case = {**case0, "attr": attr, "replay": {"op": "touch", "kind": kind, "raw": hx(raw), "attrs": [None, attr]}}
     setattr(o, attr, newv)
     f2 = dict(f)
     f2[attr] = newv
-    if kind == "tag" and f2["signature"]:
-        pass
     want = ref(f2)
+    if noblank:
+        want = want[:-1]
     got = try_raw(o)
     if got != "ok " + hx(want):
-        ctx.oracle_fail(f"{kind}.edit", {**case, "attr": attr}, f"after changing {attr}: {got[:200]} expected {hx(want)[:200]}", None)
+        ctx.oracle_fail(stream or f"{kind}.edit", case, f"after changing {attr}: {got[:200]} expected {hx(want)[:200]}", klass)
     elif o.id != sha_hex("sha1", kind, want):
-        ctx.oracle_fail(f"{kind}.edit", {**case, "attr": attr}, "id after edit is not the hash of the new bytes", None)
+        ctx.oracle_fail(stream or f"{kind}.edit", case, "id after edit is not the hash of the new bytes", klass)
+
+
+# ------------------------------------------------------------------------------------------------
+# setter sequences on live objects (the cache state machine)
+
+def _coarse(s: str) -> str:
+    return "err" if s.startswith("err") else s
+
+
+class _Seq:
+    """One live object + the expectations of the two referees (model line, fresh object)."""
+
+    def __init__(self, kind):
+        self.kind = kind
+        self.steps = []          # (model step token builder, python action, label)
+        self.trace = []          # human-readable op list for replays
+
+
+def _id_or_none(obj):
+    try:
+        return obj.id.decode()
+    except Exception:  # noqa: BLE001
+        return None
+
+
+def _raw_or_none(obj):
+    try:
+        return obj.as_raw_string()
+    except Exception:  # noqa: BLE001
+        return None
+
+
+def _edit_ops_commit(rng, f):
+    """One random public-setter edit: (attr, value, updater on the field dict)."""
+    attr = rng.choice(TOUCH["commit"])
+    if attr == "tree":
+        v = gen_hex(rng)
+    elif attr == "parents":
+        v = [gen_hex(rng) for _ in range(rng.randint(0, 3))]
+    elif attr in ("author", "committer"):
+        v = gen_ident(rng)
+    elif attr == "message":
+        v = gen_message(rng)
+    elif attr in ("commit_time", "author_time"):
+        v = gen_time(rng)
+    elif attr in ("commit_timezone", "author_timezone"):
+        v = rng.choice(TZ_CANON)
+    elif attr == "encoding":
+        v = rng.choice([None, b"latin1"])
+    elif attr == "mergetag":
+        v = [] if rng.random() < 0.5 else [ref_tag(gen_tag_fields(rng, "git"))]
+        v = [m if m.endswith(b"\n") else m + b"\n" for m in v]
+    else:
+        v = rng.choice([None, gen_pgp(rng)])
+    return attr, v
+
+
+def _edit_ops_tag(rng, f):
+    attr = rng.choice(TOUCH["tag"])
+    if attr == "name":
+        v = gen_word(rng, 1, 10)
+    elif attr == "tagger":
+        v = gen_ident(rng)
+    elif attr == "tag_time":
+        v = gen_time(rng)
+    elif attr == "tag_timezone":
+        v = rng.choice(TZ_CANON)
+    elif attr == "message":
+        v = gen_message(rng)
+        if f["signature"] and not v.endswith(b"\n"):
+            v += b"\n"
+    elif attr == "signature":
+        v = rng.choice([None, gen_pgp(rng) + b"\n"])
+    else:
+        v = (rng.choice([b"commit", b"tree", b"blob", b"tag"]), gen_hex(rng))
+    return attr, v
+
+
+def _sticky_neg(kind, f) -> bool:
+    if kind == "commit":
+        return bool((f["author_neg"] and f["author_timezone"] != 0) or (f["commit_neg"] and f["commit_timezone"] != 0))
+    if kind == "tag":
+        return bool(f["tag_neg"] and f["tag_timezone"] not in (0, None))
+    return False
+
+
+def _logical(kind, f):
+    """The logical values a user can express: the neg-utc flag only distinguishes -0000 from +0000."""
+    g = dict(f)
+    if kind == "commit":
+        g["author_neg"] = bool(g["author_neg"]) and g["author_timezone"] == 0
+        g["commit_neg"] = bool(g["commit_neg"]) and g["commit_timezone"] == 0
+    elif kind == "tag":
+        g["tag_neg"] = bool(g["tag_neg"]) and g["tag_timezone"] == 0
+    return g
+
+
+def _apply_op(kind, obj, f, op, ref):
+    """Apply one op to the live object and to the field record.  Returns (f, step record, mutation label,
+    raw content if the op was set_raw_string)."""
+    import dulwich.objects as O
+    what = op[0]
+    if what == "set":
+        _, attr, v = op
+        if kind == "tag" and attr == "object":
+            obj.object = (O.object_class(v[0]), v[1])
+            f["object_type"], f["object_sha"] = v
+        elif kind == "commit" and attr == "mergetag":
+            obj.mergetag = [O.Tag.from_string(m) for m in v]
+            f["mergetag"] = list(v)
+        else:
+            setattr(obj, attr, v)
+            f[attr] = v
+        return f, ("S", type(obj).__name__, attr, dict(f)), "set:" + attr, None
+    if what == "setraw":
+        f = dict(op[1])
+        raw = ref(f) if kind in ("commit", "tag") else ref_tree([(n, m, h) for n, (m, h) in f.items()])
+        obj.set_raw_string(raw)
+        return f, ("W", raw), "setraw", raw
+    if what in ("add", "setitem"):
+        _, n, m, h = op
+        if what == "add":
+            obj.add(n, m, h)
+        else:
+            obj[n] = (m, h)
+        f[n] = (m, h)
+        return f, ("S", "Tree", "add" if what == "add" else "__setitem__", dict(f)), what, None
+    if what == "del":
+        del obj[op[1]]
+        del f[op[1]]
+        return f, ("S", "Tree", "__delitem__", dict(f)), "del", None
+    if what == "data":
+        obj.data = op[1]
+        return op[1], ("S", "Blob", "data", op[1]), "data", None
+    if what == "chunked":
+        obj.chunked = list(op[1])
+        return b"".join(op[1]), ("S", "Blob", "chunked", b"".join(op[1])), "chunked", None
+    if what == "id":
+        return f, ("I", _id_or_none(obj)), None, None
+    if what == "raw":
+        return f, ("R", _raw_or_none(obj)), None, None
+    raise AssertionError(op)
+
+
+def _run_sequence(ctx, kind, seq, stream="edits"):
+    """seq: {"init": fields, "ops": [...]}.  Ops: ["set", attr, value] | ["id"] | ["raw"] | ["setraw", fields]
+    (blob: ["data", bytes] | ["chunked", [bytes]]; tree: ["add", n, m, h] | ["setitem", ...] | ["del", n]).
+    Two live objects run the same ops: on the first only the generated id/raw reads happen and are compared
+    with the model's machine; on the second the oracle looks after every step."""
+    import dulwich.objects as O
+    rs_sort = "built" in repr(O.sorted_tree_items)
+    tokens = {"commit": commit_tokens, "tag": tag_tokens}.get(kind)
+    build = {"commit": build_commit, "tag": build_tag}.get(kind)
+    ref = {"commit": ref_commit, "tag": ref_tag}.get(kind)
+
+    def new_obj():
+        if kind == "blob":
+            return O.Blob(), b""
+        if kind == "tree":
+            return O.Tree(), {}
+        return build(seq["init"]), dict(seq["init"])
+
+    def ser_line(f):
+        if kind in ("commit", "tag"):
+            return f"c01.{kind}.ser {tokens(f)}"
+        return f"c01.tree.ser {'rs' if rs_sort else 'py'} {lst(ent(n, m, h) for n, (m, h) in f.items())}"
+
+    def fresh(f):
+        if kind in ("commit", "tag"):
+            return build(_logical(kind, f))
+        if kind == "tree":
+            t = O.Tree()
+            for n, (m, h) in sorted(f.items()):
+                t.add(n, m, h)
+            return t
+        b = O.Blob()
+        b.data = f
+        return b
+
+    # ---- run 2 (oracle after every step)
+    obj, f = new_obj()
+    last_mut, setraw_content = "init", None
+    for i, op in enumerate(seq["ops"]):
+        f, _, mut, rawc = _apply_op(kind, obj, f, op, ref)
+        if mut is not None:
+            last_mut, setraw_content = mut, rawc
+        got_id, got_raw = _id_or_none(obj), _raw_or_none(obj)
+        case = {"kind": kind, "init": seq.get("init_repr"), "ops": [repr(o) for o in seq["ops"][: i + 1]],
+                "replay": {"kind": kind, "seq": _seq_to_json(seq, i + 1)}}
+        cls_ = None
+        if kind == "blob" and last_mut == "chunked":
+            cls_ = "blob-chunked-setter"
+        elif isinstance(f, dict) and _sticky_neg(kind, f) and last_mut.endswith("timezone"):
+            cls_ = "neg-utc-flag-kept-for-nonzero-timezone"
+        if got_raw is None or got_id is None:
+            ctx.oracle_fail(stream, case, f"object with valid field values cannot be serialised after {last_mut}", None)
+            break
+        if got_id != sha_hex("sha1", kind, got_raw).decode():
+            ctx.oracle_fail(stream, case, f"after {last_mut}: id {got_id} is not the hash of header+as_raw_string()", cls_)
+            break
+        want_raw = setraw_content if setraw_content is not None else fresh(f).as_raw_string()
+        if got_raw != want_raw:
+            ctx.oracle_fail(stream, case, f"after {last_mut}: bytes differ from a freshly built object with the same values: "
+                                          f"{got_raw[:120]!r} vs {want_raw[:120]!r}", cls_)
+            break
+    # ---- run 1 (only the generated reads) against the model's machine
+    obj, f = new_obj()
+    steps = []
+    if kind in ("commit", "tag"):
+        steps.append(("S", type(obj).__name__, "message", dict(f)))     # the state after the initial setters
+    for op in seq["ops"]:
+        f, st, _, _ = _apply_op(kind, obj, f, op, ref)
+        steps.append(st)
+    ser_states = []
+    for st in steps:
+        if st[0] == "S" and kind != "blob":
+            ser_states.append(ser_line(st[3]))
+        elif st[0] == "W" and kind != "blob":
+            ser_states.append(f"c01.{kind}.reser {hx(st[1])}" if kind != "tree" else
+                              f"c01.tree.parse {'rs' if rs_sort else 'py'}dict 20 {hx(st[1])}")
+    kinds_needed = sorted({(st[1], st[2]) for st in steps if st[0] == "S"})
+    outs = ctx.driver.batch(ser_states + [f"c01.setterkind {c} {a}" for c, a in kinds_needed])
+    kindmap = dict(zip(kinds_needed, outs[len(ser_states):]))
+    it = iter(outs[: len(ser_states)])
+    toks = []
+    for st in steps:
+        if st[0] == "S":
+            k = kindmap[(st[1], st[2])]
+            if k == "none":
+                ctx.disagree(stream, {"setter": list(st[1:3])}, "setter not in the translator's table", "exists")
+                return
+            if kind == "blob":
+                toks.append(f"S:{k}:{hx(st[3])}")
+            else:
+                o = next(it)
+                toks.append(f"S:{k}:{o[3:] if o.startswith('ok ') else '~'}")
+        elif st[0] == "W":
+            if kind == "blob":
+                toks.append(f"W:{hx(st[1])}:{hx(st[1])}")
+            else:
+                o = next(it)
+                if kind == "tree":
+                    o = ctx.driver.batch([f"c01.tree.ser {'rs' if rs_sort else 'py'} {o[3:]}"])[0] if o.startswith("ok ") else "perr"
+                toks.append(f"W:{hx(st[1])}:" + (o[3:] if o.startswith("ok ") else ("!" if o.startswith("perr") else "~")))
+        else:
+            toks.append(st[0])
+    mline = f"c01.machine {'blob' if kind == 'blob' else 'other'} {TYPE_NUM[kind]} " + " ".join(toks)
+    mout = ctx.driver.batch([mline])[0]
+    mvals = [] if mout == "." else mout.split(" ")
+    obs = [st for st in steps if st[0] in ("I", "R")]
+    case = {"kind": kind, "ops": [repr(o) for o in seq["ops"]][:14], "line": mline[:400]}
+    if len(mvals) != len(obs):
+        ctx.disagree(stream, case, mout[:200], f"{len(obs)} observations")
+        return
+    for mv, st in zip(mvals, obs):
+        if st[0] == "I":
+            m_id = None if mv == "~" else hashlib.sha1(unhx(mv)).hexdigest()
+            if m_id != st[1]:
+                ctx.disagree(stream, case, f"id {m_id}", f"id {st[1]}")
+                return
+        else:
+            m_raw = None if mv == "~" else unhx(mv)
+            if m_raw != st[1]:
+                ctx.disagree(stream, case, f"raw {mv[:120]}", f"raw {ob(st[1])[:120]}")
+                return
+
+
+def _j(v):
+    """JSON-able encoding of op values (bytes -> {"b": hex})."""
+    if isinstance(v, bytes):
+        return {"b": v.hex()}
+    if isinstance(v, (list, tuple)):
+        return [_j(x) for x in v]
+    if isinstance(v, dict):
+        return {"d": [[_j(k), _j(x)] for k, x in v.items()]}
+    return v
+
+
+def _uj(v):
+    if isinstance(v, dict) and "b" in v:
+        return bytes.fromhex(v["b"])
+    if isinstance(v, dict) and "d" in v:
+        return {_uj(k) if not isinstance(_uj(k), list) else tuple(_uj(k)): (_uj(x) if not isinstance(_uj(x), list) else _uj(x))
+                for k, x in v["d"]}
+    if isinstance(v, list):
+        return [_uj(x) for x in v]
+    return v
+
+
+def _seq_to_json(seq, upto=None):
+    return {"init": _j(seq["init"]), "ops": [_j(o) for o in seq["ops"][:upto]]}
+
+
+def _seq_from_json(kind, d):
+    init = _uj(d["init"])
+    ops = []
+    for o in d["ops"]:
+        o = _uj(o)
+        if o[0] in ("add", "setitem"):
+            o = [o[0], o[1], o[2], o[3]]
+        if o[0] == "setraw" and kind == "tree":
+            o = ["setraw", {k: tuple(v) for k, v in o[1].items()}]
+        if o[0] == "set" and o[1] == "object":
+            o = ["set", "object", tuple(o[2])]
+        ops.append(o)
+    if isinstance(init, dict) and "extra" in init:
+        init["extra"] = [tuple(x) for x in init["extra"]]
+    for o in ops:
+        if o[0] == "setraw" and isinstance(o[1], dict) and "extra" in o[1]:
+            o[1]["extra"] = [tuple(x) for x in o[1]["extra"]]
+    return {"init": init, "init_repr": repr(init)[:200], "ops": ops}
+
+
+def gen_sequence(rng, kind):
+    ops = []
+    n = rng.randint(2, 12)
+    if kind == "blob":
+        for _ in range(n):
+            k = rng.random()
+            if k < 0.3:
+                ops.append(["data", rng.randbytes(rng.choice([0, 1, 5, 40]))])
+            elif k < 0.55:
+                data = rng.randbytes(rng.choice([0, 1, 5, 40]))
+                cuts = sorted(rng.randrange(len(data) + 1) for _ in range(rng.randint(0, 3)))
+                chunks = [data[a:b] for a, b in zip([0] + cuts, cuts + [len(data)])]
+                ops.append(["chunked", chunks])
+            elif k < 0.85:
+                ops.append(["id"])
+            else:
+                ops.append(["raw"])
+        return {"init": None, "init_repr": "Blob()", "ops": ops}
+    if kind == "tree":
+        names = []
+        for _ in range(n):
+            k = rng.random()
+            if k < 0.4 or not names:
+                nm = gen_name(rng)
+                if b"/" in nm or b"\0" in nm or not nm:
+                    nm = b"n%d" % rng.randrange(5)
+                ops.append([rng.choice(["add", "setitem"]), nm, rng.choice(MODES), gen_hex(rng)])
+                if nm not in names:
+                    names.append(nm)
+            elif k < 0.5:
+                nm = rng.choice(names)
+                names.remove(nm)
+                ops.append(["del", nm])
+            elif k < 0.58:
+                es = gen_tree_entries(rng, "sha1", git_clean=True)
+                ops.append(["setraw", {a: (b, c) for a, b, c in es}])
+                names = [a for a, _, _ in es]
+            elif k < 0.88:
+                ops.append(["id"])
+            else:
+                ops.append(["raw"])
+        return {"init": None, "init_repr": "Tree()", "ops": ops}
+    gen = gen_commit_fields if kind == "commit" else gen_tag_fields
+    edit = _edit_ops_commit if kind == "commit" else _edit_ops_tag
+    f = gen(rng, "canon")
+    if kind == "tag" and f["tagger"] is None:
+        f["tagger"], f["tag_time"], f["tag_timezone"], f["tag_neg"] = b"T <t@t>", 1, 0, False
+    cur = dict(f)
+    if rng.random() < 0.4:
+        ops.append(["setraw", dict(f)])        # start from parsed canonical bytes instead of setters only
+    for _ in range(n):
+        k = rng.random()
+        if k < 0.5:
+            attr, v = edit(rng, cur)
+            ops.append(["set", attr, v])
+            if attr == "object":
+                cur["object_type"], cur["object_sha"] = v
+            else:
+                cur[attr] = v
+        elif k < 0.58:
+            g = gen(rng, "canon")
+            if kind == "tag" and g["tagger"] is None:
+                g["tagger"], g["tag_time"], g["tag_timezone"], g["tag_neg"] = b"T <t@t>", 1, 0, False
+            ops.append(["setraw", g])
+            cur = dict(g)
+        elif k < 0.88:
+            ops.append(["id"])
+        else:
+            ops.append(["raw"])
+    return {"init": f, "init_repr": {k: repr(v) for k, v in f.items()}, "ops": ops}
+
+
+def _stream_edits(ctx):
+    rng = ctx.rng
+    n = ctx.budget(300) * BOOST
+    for i in range(n):
+        kind = ("commit", "tag", "tree", "blob")[i % 4]
+        seq = gen_sequence(rng, kind)
+        nset = sum(1 for o in seq["ops"] if o[0] not in ("id", "raw"))
+        ctx.count("edits", (kind, repr(seq["ops"])), True, f"{kind}:len{min(len(seq['ops']) // 4 * 4, 12)}")
+        _run_sequence(ctx, kind, seq)
+        if i < 2:
+            ctx.sample({"stream": "edits", "kind": kind, "ops": [repr(o)[:60] for o in seq["ops"]][:8]})
+
+
+# ------------------------------------------------------------------------------------------------
+# blobs
+
+def _stream_blob(ctx):
+    import dulwich.objects as O
+    from dulwich.object_format import SHA256
+    rng = ctx.rng
+    datas = [b"", b"\0", b"a", b"blob 1\0a", b"\n", b"x" * 1000, bytes(range(256))] + \
+        [rng.randbytes(rng.choice([1, 2, 17, 100, 4096, 70000])) for _ in range(ctx.budget(60))]
+    outs = ctx.driver.batch([f"c01.hashinput 3 {hx(d)}" for d in datas])
+    for d, m in zip(datas, outs):
+        cuts = sorted(rng.randrange(len(d) + 1) for _ in range(rng.randint(0, 4)))
+        chunks = [d[a:b] for a, b in zip([0] + cuts, cuts + [len(d)])]
+        objs = {"from_string": O.Blob.from_string(d), "data": O.Blob(), "chunked": O.Blob(),
+                "raw_chunks": O.ShaFile.from_raw_chunks(3, chunks)}
+        objs["data"].data = d
+        objs["chunked"].chunked = chunks
+        want1, want256 = sha_hex("sha1", "blob", d), sha_hex("sha256", "blob", d)
+        ctx.count("blob.id", d, True, f"len{len(str(len(d)))}")
+        if m == "~" or hashlib.sha1(unhx(m)).hexdigest().encode() != want1:
+            ctx.disagree("blob.id", {"data": hx(d)[:80]}, m[:80], "header+data")
+        for how, b in objs.items():
+            if b.as_raw_string() != d or b.data != d or b"".join(b.chunked) != d:
+                ctx.oracle_fail("blob.bytes", {"how": how, "data": hx(d)[:200]}, "blob content is not returned unchanged", None)
+            if b.id != want1 or b.get_id(SHA256) != want256 or b.sha().hexdigest().encode() != want1:
+                ctx.oracle_fail("blob.id", {"how": how, "data": hx(d)[:200], "chunks": [len(c) for c in chunks]},
+                                f"blob id {b.id} is not the hash of 'blob <len>\\0'+data", None)
+
+
+# ------------------------------------------------------------------------------------------------
+# C git as a third party
+
+def _git(ctx, repo, args, inp=None, env=None, ok_codes=(0,)):
+    p = subprocess.run(["git", "-C", str(repo)] + args, input=inp, stdout=subprocess.PIPE, stderr=subprocess.PIPE,
+                       env=core.clean_env(env), timeout=300)
+    if p.returncode not in ok_codes:
+        return None, p.stderr.decode("latin1")
+    return p.stdout, p.stderr.decode("latin1")
+
+
+def _gitify(f: dict, kind: str) -> dict:
+    """Keep a generated record inside what `git fsck --strict` accepts without any warning."""
+    g = dict(f)
+    for k in ("tree", "object_sha"):
+        if k in g and set(g[k]) == {ord("0")}:
+            g[k] = b"1" * len(g[k])
+    if "parents" in g:
+        g["parents"] = [p if set(p) != {ord("0")} else b"1" * len(p) for p in g["parents"]]
+        g["parents"] = list(dict.fromkeys(g["parents"]))
+    return g
+
+
+def _stream_git(ctx):
+    import dulwich.objects as O
+    from dulwich.object_format import SHA1, SHA256
+    rng = ctx.rng
+    strict_modes = [m for m in MODES if m != 0o100664]
+    for algo in ("sha1", "sha256"):
+        fmt = SHA1 if algo == "sha1" else SHA256
+        repo = ctx.scratch / f"git-{algo}"
+        out, err = _git(ctx, ctx.scratch, ["init", "-q", f"--object-format={algo}", str(repo)])
+        if out is None:
+            raise core.InfraError(f"git init --object-format={algo} failed: {err}")
+        gid = lambda o: o.id if algo == "sha1" else o.get_id(SHA256)   # noqa: E731
+        written = {}      # id -> (kind, case) for everything dulwich serialised
+
+        def hash_objects(kind, raws):
+            files = []
+            d = ctx.scratch / f"objs-{algo}-{kind}"
+            d.mkdir(exist_ok=True)
+            for i, r in enumerate(raws):
+                (d / f"{i}").write_bytes(r)
+                files.append(str(d / f"{i}"))
+            out, err = _git(ctx, repo, ["hash-object", "-t", kind, "-w", "--stdin-paths"], ("\n".join(files) + "\n").encode())
+            return (out.decode().split() if out is not None else None), err
+
+        n = ctx.budget(40, mult=5)
+        # ---- blobs
+        blobs = [b"", b"a\n", rng.randbytes(300)] + [rng.randbytes(rng.randint(0, 50)) for _ in range(n // 4)]
+        ids, err = hash_objects("blob", blobs)
+        for d, gi in zip(blobs, ids or []):
+            b = O.Blob.from_string(d)
+            ctx.count("git.hash-object", (algo, "blob", d), True, f"{algo}:blob")
+            if gid(b).decode() != gi:
+                ctx.oracle_fail("git.hash-object", {"algo": algo, "kind": "blob", "data": hx(d)}, f"git names it {gi}, dulwich {gid(b)}", None)
+        blob_id, empty_blob = (ids or [None, None])[1], (ids or [None])[0]
+        # ---- trees: dulwich bytes -> hash-object; entries -> mktree
+        tcases = [gen_tree_entries(rng, algo, git_clean=True) for _ in range(n)]
+        tcases = [[(nm, m if m in strict_modes else 0o100644, h if set(h) != {ord("0")} else b"1" * len(h)) for nm, m, h in es]
+                  for es in tcases]
+        fam = [b"a", b"a.b", b"a-", b"a0", b"a.", b"a-b", b"ab", b"a b", b"a\xff", b"a\x01", b"A", b"a+"]
+        tcases.append([(x, 0o040000 if i % 2 else 0o100644, gen_hex(rng, algo).replace(b"00" * 8, b"11" * 8)) for i, x in enumerate(fam)])
+        tcases.append([(x, 0o100644 if i % 2 else 0o040000, gen_hex(rng, algo).replace(b"00" * 8, b"11" * 8)) for i, x in enumerate(fam)])
+        traws = []
+        for es in tcases:
+            t = O.Tree()
+            t.object_format = fmt
+            for nm, m, h in es:
+                t.add(nm, m, h)
+            traws.append(t.as_raw_string())
+        ids, err = hash_objects("tree", traws)
+        if ids is None:
+            ctx.oracle_fail("git.hash-object", {"algo": algo, "kind": "tree"}, f"git rejects a dulwich tree: {err[:300]}", None)
+        for es, raw, gi in zip(tcases, traws, ids or []):
+            ctx.count("git.hash-object", (algo, "tree", raw), True, f"{algo}:tree")
+            mine = sha_hex(algo, "tree", raw).decode()
+            t = O.ShaFile.from_raw_string(2, raw, object_format=fmt)
+            if gi != mine or gid(t).decode() != gi:
+                ctx.oracle_fail("git.hash-object", {"algo": algo, "kind": "tree", "raw": hx(raw)}, f"git names it {gi}, dulwich {gid(t)}", None)
+            written[gi] = ("tree", {"algo": algo, "raw": hx(raw)})
+        for es, raw in list(zip(tcases, traws))[: max(6, n // 3)] + list(zip(tcases, traws))[-2:]:
+            typ = lambda m: "tree" if m == 0o040000 else ("commit" if m == 0o160000 else "blob")   # noqa: E731
+            inp = b"".join(b"%o %s %s\t%s\0" % (m, typ(m).encode(), h, nm) for nm, m, h in es)
+            out, err = _git(ctx, repo, ["mktree", "-z", "--missing"], inp)
+            ctx.count("git.mktree", (algo, raw), True, f"{algo}:n{min(len(es), 9)}")
+            if out is None:
+                ctx.notes.append(f"git mktree failed: {err[:200]}")
+                continue
+            gi = out.decode().strip()
+            graw, _ = _git(ctx, repo, ["cat-file", "tree", gi])
+            if graw != raw:
+                ctx.oracle_fail("git.mktree", {"algo": algo, "entries": [(hx(a), b, c.decode()) for a, b, c in es]},
+                                f"git mktree writes {hx(graw or b'')[:160]}, dulwich {hx(raw)[:160]}", None)
+        empty_tree = hash_objects("tree", [b""])[0][0]
+        # ---- commits: dulwich bytes -> hash-object (+fsck later); fields -> commit-tree
+        ccases = []
+        for _ in range(n):
+            f = _gitify(gen_commit_fields(rng, "git", algo), "commit")
+            f["tree"] = empty_tree.encode()
+            f["parents"] = []
+            ccases.append(f)
+        craws = [build_commit(f).as_raw_string() for f in ccases]
+        ids, err = hash_objects("commit", craws)
+        if ids is None:
+            ctx.oracle_fail("git.hash-object", {"algo": algo, "kind": "commit"}, f"git rejects a dulwich commit: {err[:300]}", None)
+        commit_ids = []
+        for f, raw, gi in zip(ccases, craws, ids or []):
+            ctx.count("git.hash-object", (algo, "commit", raw), True, f"{algo}:commit")
+            c = O.Commit.from_string(raw)
+            if gid(c).decode() != gi:
+                ctx.oracle_fail("git.hash-object", {"algo": algo, "kind": "commit", "raw": hx(raw)}, f"git names it {gi}, dulwich {gid(c)}", None)
+            written[gi] = ("commit", {"algo": algo, "raw": hx(raw)})
+            commit_ids.append(gi)
+        for i in range(max(5, n // 4)):
+            f = _gitify(gen_commit_fields(rng, "git", algo), "commit")
+            f["tree"] = empty_tree.encode()
+            f["parents"] = [x.encode() for x in rng.sample(commit_ids, min(len(commit_ids), rng.choice([0, 1, 2, 3])))]
+            f["encoding"], f["mergetag"], f["extra"], f["gpgsig"] = None, [], [], None
+            f["author_neg"] = f["commit_neg"] = False
+            nm = lambda ident: ident[: ident.index(b" <")] if b" <" in ident else b""     # noqa: E731
+            em = lambda ident: ident[ident.index(b"<") + 1: -1]   # noqa: E731
+
+            def simple(x):
+                # git's ident clean-up (strbuf_addstr_without_crud): edges lose bytes <= 32 and .,:;<>"\'
+                crud = lambda c: c <= 32 or c in b".,:;<>\"\\'"   # noqa: E731
+                y = bytearray(x)
+                while y and crud(y[0]):
+                    del y[0]
+                while y and crud(y[-1]):
+                    del y[-1]
+                return bytes(y) or b"x"
+            an, cn = simple(nm(f["author"])), simple(nm(f["committer"]))
+            ae, ce = simple(em(f["author"])), simple(em(f["committer"]))
+            if any(c in an + cn + ae + ce for c in b"<>\n"):
+                continue
+            f["author"], f["committer"] = an + b" <" + ae + b">", cn + b" <" + ce + b">"
+            if not f["message"].endswith(b"\n") or b"\0" in f["message"]:
+                f["message"] = b"msg\n"
+            e = dict(core.clean_env())
+            e.update({"GIT_AUTHOR_NAME": an, "GIT_AUTHOR_EMAIL": ae, "GIT_COMMITTER_NAME": cn, "GIT_COMMITTER_EMAIL": ce,
+                      "GIT_AUTHOR_DATE": f"{f['author_time']} {ref_tz(f['author_timezone']).decode()}",
+                      "GIT_COMMITTER_DATE": f"{f['commit_time']} {ref_tz(f['commit_timezone']).decode()}"})
+            args = ["commit-tree", empty_tree] + [x for p in f["parents"] for x in ("-p", p.decode())]
+            p = subprocess.run(["git", "-C", str(repo)] + args, input=f["message"],
+                               stdout=subprocess.PIPE, stderr=subprocess.PIPE, env=e, timeout=120)
+            ctx.count("git.commit-tree", (algo, i), True, f"{algo}:p{len(f['parents'])}")
+            if p.returncode != 0:
+                ctx.notes.append(f"git commit-tree failed: {p.stderr[:200]!r}")
+                continue
+            gi = p.stdout.decode().strip()
+            graw, _ = _git(ctx, repo, ["cat-file", "commit", gi])
+            c = build_commit(f)
+            if graw != c.as_raw_string() or gid(c).decode() != gi:
+                ctx.oracle_fail("git.commit-tree", {"algo": algo, "fields": {k: repr(v) for k, v in f.items()}},
+                                f"git writes {graw!r}, dulwich {c.as_raw_string()!r}", None)
+            else:
+                back = commit_fields_of(O.Commit.from_string(graw))
+                if _norm_msg(back) != _norm_msg(f):
+                    ctx.oracle_fail("git.commit-tree", {"algo": algo, "raw": hx(graw)}, "dulwich parses git's commit into other values", None)
+        # ---- tags: dulwich bytes -> mktag (git validates strictly) and hash-object
+        targets = [(empty_tree.encode(), b"tree")] + [(c.encode(), b"commit") for c in commit_ids[:5]]
+        if blob_id:
+            targets.append((blob_id.encode(), b"blob"))
+        tagcases = []
+        for _ in range(n):
+            f = _gitify(gen_tag_fields(rng, "git", algo, target=rng.choice(targets)), "tag")
+            tagcases.append(f)
+        tagraws = [build_tag(f).as_raw_string() for f in tagcases]
+        ids, err = hash_objects("tag", tagraws)
+        if ids is None:
+            ctx.oracle_fail("git.hash-object", {"algo": algo, "kind": "tag"}, f"git rejects a dulwich tag: {err[:300]}", None)
+        for f, raw, gi in zip(tagcases, tagraws, ids or []):
+            ctx.count("git.hash-object", (algo, "tag", raw), True, f"{algo}:tag")
+            t = O.Tag.from_string(raw)
+            if gid(t).decode() != gi:
+                ctx.oracle_fail("git.hash-object", {"algo": algo, "kind": "tag", "raw": hx(raw)}, f"git names it {gi}, dulwich {gid(t)}", None)
+            written[gi] = ("tag", {"algo": algo, "raw": hx(raw)})
+        for f, raw in list(zip(tagcases, tagraws))[: max(5, n // 4)]:
+            out, err = _git(ctx, repo, ["mktag"], raw)
+            ctx.count("git.mktag", (algo, raw), True, f"{algo}:{f['object_type'].decode()}")
+            if out is None:
+                ctx.oracle_fail("git.mktag", {"algo": algo, "raw": hx(raw)}, f"git mktag rejects a dulwich tag: {err[:300]}", None)
+            elif out.decode().strip() != sha_hex(algo, "tag", raw).decode():
+                ctx.oracle_fail("git.mktag", {"algo": algo, "raw": hx(raw)}, "git mktag names it differently", None)
+        # ---- fsck --strict over everything written
+        p = subprocess.run(["git", "-C", str(repo), "fsck", "--strict", "--no-dangling", "--no-progress"], stdout=subprocess.PIPE,
+                           stderr=subprocess.STDOUT, env=core.clean_env(), timeout=600)
+        bad = 0
+        for line in p.stdout.decode("latin1").splitlines():
+            m = re.match(r"(error|warning) in (\w+) ([0-9a-f]+): (\w+)", line)
+            if m and m.group(3) in written:
+                bad += 1
+                kind, case = written[m.group(3)]
+                ctx.oracle_fail("git.fsck", {**case, "kind": kind}, f"git fsck --strict: {line[:200]}", None)
+        ctx.count("git.fsck", (algo, len(written)), True, f"{algo}:objects{len(written) // 10 * 10}")
+        ctx.extra_cov.setdefault("git", {})[algo] = {"objects_written_and_fscked": len(written), "fsck_complaints": bad}
+
+
+# ================================================================================================
+# corpus, run, search, replay
+
+def _run_corpus(ctx, V):
+    d = core.VERIF / "corpus" / "C01"
+    if not d.exists():
+        return
+    for fpath in sorted(d.glob("*.json")):
+        c = json.loads(fpath.read_text())
+        ctx.count("corpus", fpath.stem, True, fpath.stem)
+        _replay_case(ctx, c, "corpus", V)
+
+
+def _replay_case(ctx, c: dict, stream: str, V=None):
+    op = c.get("op")
+    if op == "seq":
+        _run_sequence(ctx, c["kind"], _seq_from_json(c["kind"], c["seq"]), stream)
+    elif op == "touch":
+        _touch_oracle(ctx, c["kind"], unhx(c["raw"]), ctx.rng, stream=stream, attrs=c.get("attrs"))
+    elif op == "fields":
+        f = _uj(c["fields"])
+        if "extra" in f:
+            f["extra"] = [tuple(x) for x in f["extra"]]
+        _fields_oracle(ctx, c["kind"], f, stream)
+    else:
+        print(f"replay: case kind {op!r} is not replayable on its own; re-run ./check C01 with the recorded seed")
+
+
+def _fields_oracle(ctx, kind, f, stream=None):
+    """fields -> bytes -> fields on the real code, against git's grammar."""
+    from dulwich.objects import Commit, Tag
+    from dulwich.object_format import SHA256
+    build = build_commit if kind == "commit" else build_tag
+    ref = ref_commit if kind == "commit" else ref_tag
+    fields_of = commit_fields_of if kind == "commit" else tag_fields_of
+    cls = Commit if kind == "commit" else Tag
+    case = {"kind": kind, "fields": {k: repr(v) for k, v in f.items()}, "replay": {"op": "fields", "kind": kind, "fields": _j(f)}}
+    klass = _fields_class(kind, f)
+    obj = build(f)
+    real = try_raw(obj)
+    if not real.startswith("ok "):
+        ctx.oracle_fail(stream or f"{kind}.ser", case, f"canonical field values do not serialise: {real}", klass)
+        return real, None
+    raw = unhx(real[3:])
+    want = ref(f)
+    if raw != want:
+        ctx.oracle_fail(stream or f"{kind}.bytes", case, f"as_raw_string differs from git's encoding: {raw[-120:]!r} vs {want[-120:]!r}", klass)
+    if obj.id != sha_hex("sha1", kind, raw) or obj.get_id(SHA256) != sha_hex("sha256", kind, raw):
+        ctx.oracle_fail(stream or f"{kind}.id", case, "id is not the hash of header+as_raw_string", klass)
+    try:
+        back = fields_of(cls.from_string(raw))
+    except Exception as e:  # noqa: BLE001
+        ctx.oracle_fail(stream or f"{kind}.roundtrip", case, f"own bytes are rejected: {type(e).__name__}: {e}", klass)
+        return real, raw
+    if _norm_msg(back) != _norm_msg(f):
+        diff = [k for k in f if _norm_msg(back)[k] != _norm_msg(f)[k]]
+        ctx.oracle_fail(stream or f"{kind}.roundtrip", case, f"from_string(as_raw_string) changes {diff}", klass)
+    return real, raw
+
+
+def _fields_class(kind, f):
+    if kind == "commit" and any(not m.endswith(b"\n") for m in f["mergetag"]):
+        return "mergetag-without-trailing-lf"
+    return None
+
+
+BOOST = 1
+
+
+def run(ctx: core.Ctx):
+    ctx.assumptions += [
+        "the Lean driver returns the bytes (object header ++ body) an id is the hash of; SHA-1/SHA-256 themselves are "
+        "computed by hashlib in the harness (the hash is an uninterpreted parameter of the theorems)",
+        "float arithmetic in format_timezone/parse_timezone is modelled by integer division (exact below 2^53); "
+        "CPython's 4300-digit int() limit is not modelled; neither is reached by the generators",
+        "message=None and message=b'' are identified when comparing field values (both serialise to the same bytes)",
+        "C git 2.39.5 on PATH is the third party (hash-object, mktree, commit-tree, mktag, cat-file, fsck --strict)",
+    ]
+    V = Variants(ctx)
+    try:
+        w = {k: v.ask({"mod": MOD, "op": "which"}).get("r") for k, v in V.workers.items()}
+        ctx.extra_cov["variants"] = w
+        _run_corpus(ctx, V)
+        _stream_prims(ctx, V)
+        _stream_tz(ctx)
+        _stream_msg(ctx)
+        _stream_tree(ctx, V)
+        _stream_objects(ctx, "tag")
+        _stream_objects(ctx, "commit")
+        _stream_blob(ctx)
+        _stream_edits(ctx)
+        _stream_git(ctx)
+    finally:
+        V.close()
+
+
+def search(ctx: core.Ctx):
+    """Failing-input search after a broken obligation / correspondence: the direct oracles again on fresh cases with
+    a boosted budget (the streams below carry the property's own round-trip / id / git-grammar oracles)."""
+    global BOOST
+    BOOST = 4
+    V = Variants(ctx)
+    try:
+        _stream_edits(ctx)
+        if ctx.oracle_failures:
+            return
+        _stream_tz(ctx)
+        _stream_msg(ctx)
+        _stream_objects(ctx, "tag")
+        _stream_objects(ctx, "commit")
+        if ctx.oracle_failures:
+            return
+        _stream_tree(ctx, V)
+        _stream_blob(ctx)
+    finally:
+        BOOST = 1
+        V.close()
+
+
+def replay(ctx: core.Ctx, data: dict) -> int:
+    c = data.get("case", data)
+    rp = c.get("replay", c)
+    _replay_case(ctx, rp, "replay")
+    for f in ctx.oracle_failures:
+        print("replay:", f["what"][:300])
+    if ctx.oracle_failures:
+        print(f"VIOLATION property=C01 replay={data.get('_path', '<replayed>')}")
+        return 1
+    if ctx.known_hit:
+        for k, n in ctx.known_hit.items():
+            print(f"KNOWN-FINDING: property=C01 {k} (hit {n}x)")
+        return 0
+    print("replay: property holds on this case")
+    return 0
